@@ -188,6 +188,17 @@ CLAIMED = {
             'character per aligned base, MC/uC/sZ/sz/sX/sx/sH/sh totals) is checked for three symbolic calls and one read with '
             'seven aligned pairs: bounded stand-in, not counted as proved.',
             '5/C14'),
+    'C15': ('Structure of consensus pseudo-reads only. Unbounded proof (loop invariant, any number of covered blocks) that '
+            'Molecule.get_CIGAR turns the covered runs into one M operation per run and one N operation per gap with exactly the '
+            'run and gap lengths, and reports the first covered position and the last one as alignment span. Bounded stand-ins (not '
+            'counted as proved): generate_partial_reads for 1-3 blocks with symbolic lengths/gaps/max_N_span (sequence, quality and '
+            'M lengths agree, reference span = sum of operations, parts split exactly at gaps > max_N_span, every block fetched '
+            'once in order); get_CIGAR called again after the coverage changed (no stale memo); create_MD_tag exhaustively for '
+            'strings up to length 3; a linkage scan that every numpy attribute used by the consensus code exists.',
+            'NOT decided: "the base at each position is the most likely call given bases and qualities" (floating point), tag '
+            'copying to pseudo-reads, the --consensus command line; get_aligned_blocks/find_ranges/consecutive_groups and pysam '
+            'record construction are assumed; extract_stretch_from_dict through its length contract.',
+            '5/C15'),
 }
 
 NOT_YET = 'check not built yet (framework under construction; see DESIGN.md section 5)'
